@@ -565,7 +565,10 @@ let run_expr = function
               | "incof" -> opt_expr (e_inc_of regs.(r 1) (iv 2))
               | "pincof" -> (match e_prod_inc_of regs.(r 1) (iv 2) with Some (e, mu) -> full e ^ "*" ^ sz mu | None -> "none")
               | "cincof" -> opt sz (e_const_inc_of regs.(r 1) (iv 2))
-              | "prodof" -> opt_expr (e_prod_of regs.(r 1) (iv 2))
+              | "prodof" -> opt_expr (e_prod_of w regs.(r 1) (iv 2))
+              | "sincof" -> let e = e_inc_of regs.(r 2) (iv 3) in (match e with Some x -> regs.(r 1) <- x | None -> ()); opt_expr e
+              | "spincof" -> (match e_prod_inc_of regs.(r 2) (iv 3) with Some (e, mu) -> regs.(r 1) <- e; full e ^ "*" ^ sz mu | None -> "none")
+              | "sprodof" -> let e = e_prod_of w regs.(r 2) (iv 3) in (match e with Some x -> regs.(r 1) <- x | None -> ()); opt_expr e
               | "cpart" -> sz (e_constant_part regs.(r 1))
               | "ident" -> opt sz (e_identity regs.(r 1))
               | "opc" -> string_of_int (int_of_nat (e_op_count w regs.(r 1)))
